@@ -205,6 +205,7 @@ func TestVerif_C29(t *testing.T) {
 	defer rec.Write()
 	vfC29Fills(rec)
 	vfC29ReadStorm(rec)
+	vfC29ReadVsShrink(rec)
 	eps := evid.Pick(90, 12000)
 	for ep := 0; ep < eps && rec.Violations() < 20 && !vfC29Hung; ep++ {
 		vfC29Episode(rec, ep)
@@ -1233,5 +1234,99 @@ func vfC29ReadStorm(rec *evid.Rec) {
 		}
 		rec.Distinct(fmt.Sprintf("read-storm|conns=%d|clean=%v", nconn, foreign.Load() == 0 && undecodable.Load() == 0))
 		srv.Close()
+	}
+}
+
+// vfC29ReadVsShrink: a READ that has looked at the file's size and is parked just before it reads the
+// bytes, while a request that shrinks the file runs to completion. Whichever way the two are
+// ordered, the READ returns a state the file was in: the old bytes, or the new (shorter) bytes -
+// never the old length filled up with bytes the file never held.
+func vfC29ReadVsShrink(rec *evid.Rec) {
+	for _, mut := range []string{"SETATTR-size-3", "SETATTR-size-0", "CREATE-size-0", "CREATE-size-2"} {
+		for _, ttl := range []time.Duration{1, time.Hour} {
+			fs := refs.New()
+			fs.PlantDir("/d", 0777, 0, 0)
+			fs.PlantFile("/d/f", []byte("abcdefgh"), 0666, 0, 0)
+			srv, err := vfNewSrv(fs, ExportOptions{AttrCacheTimeout: ttl})
+			if err != nil {
+				rec.Infra(err.Error())
+				return
+			}
+			c := srv.client()
+			root, _ := c.mnt("/")
+			dl, _ := c.lookup(root, "d")
+			fl, _ := c.lookup(vfFH(dl.FH), "f")
+			if dl == nil || fl == nil || fl.Status != 0 {
+				rec.Infra("lookup")
+				srv.Close()
+				return
+			}
+			dh, fh := vfFH(dl.FH), vfFH(fl.FH)
+			parked, open := make(chan struct{}), make(chan struct{})
+			var once sync.Once
+			fs.SetHook(func(op *refs.Op, ph refs.Phase) error {
+				if ph == refs.Before && op.Name == "File.ReadAt" && op.Path == "/d/f" {
+					first := false
+					once.Do(func() { first = true })
+					if first {
+						close(parked)
+						<-open
+					}
+				}
+				return nil
+			})
+			var rr *rfc.Res
+			done := make(chan struct{})
+			go func() {
+				defer close(done)
+				rr, _ = srv.client().read(fh, 0, 8)
+			}()
+			select {
+			case <-parked:
+			case <-time.After(20 * time.Second):
+				rec.Inconclusive(1)
+				close(open)
+				srv.Close()
+				continue
+			}
+			var mres *rfc.Res
+			newData := ""
+			switch mut {
+			case "SETATTR-size-3":
+				mres, _ = c.setattr(fh, xdrw.Sattr3{Size: xdrw.U64p(3)})
+				newData = "abc"
+			case "SETATTR-size-0":
+				mres, _ = c.setattr(fh, xdrw.Sattr3{Size: xdrw.U64p(0)})
+			case "CREATE-size-0":
+				mres, _ = c.create(dh, "f", 0, xdrw.Sattr3{Size: xdrw.U64p(0)}, [8]byte{})
+			default:
+				mres, _ = c.create(dh, "f", 0, xdrw.Sattr3{Size: xdrw.U64p(2)}, [8]byte{})
+				newData = "ab"
+			}
+			close(open)
+			select {
+			case <-done:
+			case <-time.After(40 * time.Second):
+				rec.Inconclusive(1)
+				continue
+			}
+			fs.SetHook(nil)
+			rec.Eval(1)
+			outcome := "no-reply"
+			if mres != nil && mres.Status == 0 && rr != nil && rr.Status == 0 {
+				got := string(rr.Data)
+				switch got {
+				case "abcdefgh":
+					outcome = "old-state"
+				case newData:
+					outcome = "new-state"
+				default:
+					outcome = "neither"
+					rec.Violate("C29/read-returns-a-state-the-file-never-had/shrunk-during-the-read", fmt.Sprintf("the file held %q, then (%s) %q; a READ of 8 bytes that overlapped the shrink returned %q (count %d)", "abcdefgh", mut, newData, got, rr.Count), map[string]any{"mutator": mut})
+				}
+			}
+			rec.Distinct(fmt.Sprintf("read-vs-shrink|%s|ttl=%v|%s", mut, ttl, outcome))
+			srv.Close()
+		}
 	}
 }
